@@ -16,10 +16,10 @@ TXT = {
          "W1 simulation with a finite fault phase, then a fault-free phase on the fake clock"),
  "C04": ("exploration", "§8 C04",
          "Seeded search over ordered groups (fifo/lifo, several tags, 1-4 threads, faults, restarts): at each arrival the announced predecessor must have arrived or been logged, and every file of the group that precedes it in the configured order and was queued before its first emission must have arrived earlier.",
-         "W1 simulation + order oracle at arrival"),
+         "W1 simulation + order oracle at arrival; receiver clause (chains, forests, cycles, log-only roots) in W2 with a scripted peer"),
  "C05": ("exploration", "§8 C05",
          "Seeded search with lost answers, stalls, poll give-ups and restarts of both sides: the harness consumes the final directory, so a second delivery of a (name, hash) shows as a second arrival; receive-log records per (name, hash) are counted (one extra only for a crash between logging and moving).",
-         "W1 simulation + exactly-once oracle over arrivals and the receive log"),
+         "W1 simulation + exactly-once oracle over arrivals and the receive log; W2 scripts for retransmissions after a receiver restart and after the 1000-entry cache ageing"),
  "C06": ("fault_enumeration", "§8 C06",
          "For each generated arrival history the run is first executed crash-free to count the occurrences of every labelled durable step (H1 crash points in Receive / writeJSON / process / putFileAway / Move / Recover); it is then re-executed once per sampled (quick) or every (thorough) occurrence with the receiver killed there (optionally a second kill during recovery, optionally a torn companion temp file), restarted on the crash image, and judged: nothing unvalidated delivered, nothing delivered twice, partial listings only claim bytes really staged, everything delivered within the liveness bound.",
          "crash-point enumeration inside the W1 simulation"),
@@ -43,7 +43,7 @@ TXT = {
          "W4 component simulation of queue.Tagged + reference model"),
  "C13": ("exploration", "§8 C13",
          "Seeded search in W1 over the real HTTP path with 1-byte to unlimited delivery grants, gzip 0-9, unicode / space / ':' / '\\\\' names: every part the receiver records must carry a descriptor the sender encoded (to the nanosecond) and exactly the bytes the encoder read; truncated requests (cuts) must not record short parts.",
-         "W1 simulation + encoder/decoder comparison per part"),
+         "W1 simulation + encoder/decoder comparison per part; W2 scripted peer sending every request shape over a fragmenting connection"),
  "C14": ("exploration", "§8 C14",
          "Seeded search in W2 with a hostile but authorised peer: traversal fragments in part name, rename target, predecessor, polled names, source, separator header and static paths, with and without an allow-list; after deferred effects (finalisation, cleaner) the sandbox outside the directories a request may use must be unchanged and no answer may contain sentinel content.",
          "W2 simulation + sandbox snapshot diff"),
@@ -55,7 +55,7 @@ TXT = {
          "stop-position enumeration inside the W1 simulation"),
  "C17": ("exploration", "§8 C17",
          "Seeded search in W1 over trees with nested/hidden directories, lock files, zero-length files, the disable marker coming and going, include/ignore sets, a non-HTTP tag, minimum ages on both sides of each file's age, and files appearing / rewritten / touched / replaced between and during scans: every file a scan returns or the sender announces must be eligible under an independent statement of the rules, announced versions must have existed, ineligible files are never transmitted or removed, unchanged versions are not picked up twice, and every eligible final version arrives.",
-         "W1 simulation + independent eligibility model"),
+         "W1 simulation + independent eligibility model (both directions: scanned => eligible, eligible => scanned and delivered within the bound)"),
  "C20": ("exploration", "§8 C20",
          "Seeded search in W2: staging contents of every kind (plain partials, partial of a NEW version of a delivered name, late duplicate of a delivered file, held file, complete-but-unvalidated file, partial with a gap) are produced through the real receive protocol, aged to either side of 24 h, and cleaned by the operator route, prune and the 30-minute timer at tape-chosen moments (with crashes in between); the staging tree is diffed across every cleaning pass - removed partials/companions must belong to a delivered or logged (name, hash), removed directories must have been empty and old enough - and the interrupted transfers must complete afterwards without any byte being sent twice.",
          "W2 simulation + staging-tree diff across cleaning passes"),
